@@ -107,6 +107,8 @@ def run(env, tier, seed, broken=None):
             texts += ['1 +%s%s2' % (bl, sp), '%s%sx' % (bl, sp), 'x%s%s' % (bl, sp)]
     for dg in ['\u0663', '\u096a', '\uff11', '\u0be7', '\u09f4', '\u00b2', '\u2460']:
         texts += ['x' + dg, 'x' + dg + 'y', dg + 'x', '1' + dg, dg, '_' + dg, 'ক' + dg]
+    for nm in lang.near_words():
+        texts += [nm, nm + ' 1', 'x ' + nm + '(']
     for tail in ['1.', '1.;', 'a.', '"s".', '1..', '/* x *', '/* x */', '/*', '/', '//', '"', '1.5.', '৫.', 'x = 1.']:
         texts += [tail, 'y ' + tail, tail + '\n']
     mm, gd, acc = diff_front(env, texts)
